@@ -1,9 +1,12 @@
 ------------------------------ MODULE ArrayMem ------------------------------
 (***************************************************************************)
-(* Contract + generator for pysnark.array.Array accessed at SECRET indices *)
-(* (C15): the array is a plain Python list (of lists); a read returns the  *)
-(* element at the index, a write replaces exactly that element, an index   *)
-(* outside the bounds raises and changes nothing.                          *)
+(* Contract + generator for pysnark.array.Array (C15): the array is a      *)
+(* plain Python list (of lists).  A read returns the element at the index, *)
+(* a write replaces exactly that element, an index outside the bounds      *)
+(* raises and changes nothing.  Indices are SECRET ("s": a LinComb; valid  *)
+(* range 0..len-1) or PUBLIC ("p": a Python int, with Python's negative    *)
+(* indexing, valid range -len..len-1); rows of a 2-D array can be read     *)
+(* whole and stored at a public row position.                              *)
 (***************************************************************************)
 EXTENDS Integers, Sequences, TLC, Json
 
@@ -22,54 +25,67 @@ Init == /\ \/ (dim = 1 /\ arr \in Init1)
         /\ hist = <<>> /\ last = [out |-> "ok", ret |-> <<>>]
 
 Vals == {7, 9}
+Kinds == {"s", "p"}
 
-InRange(i, s) == i >= 0 /\ i < Len(s)
+\* validity and position (1-based) of index i of kind k into a sequence of length n
+Valid(i, k, n) == IF k = "s" THEN i >= 0 /\ i < n ELSE i >= -n /\ i < n
+Pos(i, n) == IF i < 0 THEN i + n + 1 ELSE i + 1
 
 Log(a) == hist' = Append(hist, a) /\ arr0' = arr0
+Rec(a, i, ik, j, jk, v) == [a |-> a, i |-> i, ik |-> ik, j |-> j, jk |-> jk, v |-> v]
+Ok(r) == [out |-> "ok", ret |-> r]
+Raise == [out |-> "raise", ret |-> <<>>]
 
 \* ---- one-dimensional
-Get1(i) == /\ dim = 1 /\ dim' = dim /\ arr' = arr
-           /\ last' = IF InRange(i, arr) THEN [out |-> "ok", ret |-> <<arr[i + 1]>>] ELSE [out |-> "raise", ret |-> <<>>]
-           /\ Log([a |-> "get", i |-> i, j |-> 0, v |-> 0])
+Get1(i, ik) == /\ dim = 1 /\ dim' = dim /\ arr' = arr
+               /\ last' = IF Valid(i, ik, Len(arr)) THEN Ok(<<arr[Pos(i, Len(arr))]>>) ELSE Raise
+               /\ Log(Rec("get", i, ik, 0, "p", 0))
 
-Set1(i, v) == /\ dim = 1 /\ dim' = dim
-              /\ arr' = IF InRange(i, arr) THEN [arr EXCEPT ![i + 1] = v] ELSE arr
-              /\ last' = [out |-> IF InRange(i, arr) THEN "ok" ELSE "raise", ret |-> <<>>]
-              /\ Log([a |-> "set", i |-> i, j |-> 0, v |-> v])
+Set1(i, ik, v) == /\ dim = 1 /\ dim' = dim
+                  /\ arr' = IF Valid(i, ik, Len(arr)) THEN [arr EXCEPT ![Pos(i, Len(arr))] = v] ELSE arr
+                  /\ last' = IF Valid(i, ik, Len(arr)) THEN Ok(<<>>) ELSE Raise
+                  /\ Log(Rec("set", i, ik, 0, "p", v))
 
-\* ---- two-dimensional: a[i, j] with both indices secret, and reading a whole row a[i]
-Get2(i, j) == /\ dim = 2 /\ dim' = dim /\ arr' = arr
-              /\ last' = IF InRange(i, arr) /\ InRange(j, arr[1]) THEN [out |-> "ok", ret |-> <<arr[i + 1][j + 1]>>]
-                         ELSE [out |-> "raise", ret |-> <<>>]
-              /\ Log([a |-> "get2", i |-> i, j |-> j, v |-> 0])
+\* ---- two-dimensional: a[i, j], reading a whole row a[i], storing a row read at src to the public row dst
+Valid2(i, ik, j, jk) == Valid(i, ik, Len(arr)) /\ Valid(j, jk, Len(arr[1]))
 
-GetRow(i) == /\ dim = 2 /\ dim' = dim /\ arr' = arr
-             /\ last' = IF InRange(i, arr) THEN [out |-> "ok", ret |-> arr[i + 1]] ELSE [out |-> "raise", ret |-> <<>>]
-             /\ Log([a |-> "getrow", i |-> i, j |-> 0, v |-> 0])
+Get2(i, ik, j, jk) == /\ dim = 2 /\ dim' = dim /\ arr' = arr
+                      /\ last' = IF Valid2(i, ik, j, jk) THEN Ok(<<arr[Pos(i, Len(arr))][Pos(j, Len(arr[1]))]>>) ELSE Raise
+                      /\ Log(Rec("get2", i, ik, j, jk, 0))
 
-Set2(i, j, v) == /\ dim = 2 /\ dim' = dim
-                 /\ arr' = IF InRange(i, arr) /\ InRange(j, arr[1]) THEN [arr EXCEPT ![i + 1][j + 1] = v] ELSE arr
-                 /\ last' = [out |-> IF InRange(i, arr) /\ InRange(j, arr[1]) THEN "ok" ELSE "raise", ret |-> <<>>]
-                 /\ Log([a |-> "set2", i |-> i, j |-> j, v |-> v])
+GetRow(i, ik) == /\ dim = 2 /\ dim' = dim /\ arr' = arr
+                 /\ last' = IF Valid(i, ik, Len(arr)) THEN Ok(arr[Pos(i, Len(arr))]) ELSE Raise
+                 /\ Log(Rec("getrow", i, ik, 0, "p", 0))
 
-Idx == -1..3
+Set2(i, ik, j, jk, v) == /\ dim = 2 /\ dim' = dim
+                         /\ arr' = IF Valid2(i, ik, j, jk) THEN [arr EXCEPT ![Pos(i, Len(arr))][Pos(j, Len(arr[1]))] = v] ELSE arr
+                         /\ last' = IF Valid2(i, ik, j, jk) THEN Ok(<<>>) ELSE Raise
+                         /\ Log(Rec("set2", i, ik, j, jk, v))
 
-Step == \/ \E i \in Idx : Get1(i) \/ GetRow(i)
-        \/ \E i \in Idx, v \in Vals : Set1(i, v)
-        \/ \E i \in -1..2, j \in -1..2 : Get2(i, j)
-        \/ \E i \in -1..2, j \in -1..2, v \in {7} : Set2(i, j, v)
+\* m[dst] = m[src]  (dst public and valid; src of kind sk): the whole row is replaced by a copy of the source row
+CopyRow(dst, src, sk) == /\ dim = 2 /\ dim' = dim /\ dst \in 0..(Len(arr) - 1)
+                         /\ arr' = IF Valid(src, sk, Len(arr)) THEN [arr EXCEPT ![dst + 1] = arr[Pos(src, Len(arr))]] ELSE arr
+                         /\ last' = IF Valid(src, sk, Len(arr)) THEN Ok(<<>>) ELSE Raise
+                         /\ Log(Rec("copyrow", dst, "p", src, sk, 0))
+
+Step == \/ \E i \in -1..3, k \in Kinds : Get1(i, k) \/ GetRow(i, k)
+        \/ \E i \in -1..3, k \in Kinds, v \in Vals : Set1(i, k, v)
+        \/ \E i \in -1..2, j \in -1..2, ik \in Kinds, jk \in Kinds : Get2(i, ik, j, jk)
+        \/ \E i \in -1..2, j \in -1..2, ik \in Kinds, jk \in Kinds : Set2(i, ik, j, jk, 7)
+        \* (a row read at a PUBLIC position is the row object itself -- Python aliasing, not modelled; a row read at a
+        \*  secret position is a fresh selection of values)
+        \/ \E d \in 0..1, s \in -1..2 : CopyRow(d, s, "s")
 
 Next == Len(hist) < MaxLen /\ Step
 Spec == Init /\ [][Next]_vars
 
-\* ---- contract, as properties of the model (sanity of the reference itself)
-\* a write changes at most one cell and a read none
+\* ---- sanity of the reference itself: an element write changes at most one cell, a read none
 RECURSIVE Flat(_)
 Flat(s) == IF s = <<>> THEN <<>> ELSE (IF dim = 1 THEN <<Head(s)>> ELSE Head(s)) \o Flat(Tail(s))
 
 DiffCount(s, t) == LET n == Len(s) IN IF n # Len(t) THEN 99 ELSE
                    LET D == {k \in 1..n : s[k] # t[k]} IN IF D = {} THEN 0 ELSE IF \E k \in D : D = {k} THEN 1 ELSE 2
-WriteOne == [][DiffCount(Flat(arr), Flat(arr')) <= 1]_vars
+WriteOne == [][(hist' # hist /\ hist'[Len(hist')].a # "copyrow") => DiffCount(Flat(arr), Flat(arr')) <= 1]_vars
 
 \* generator: every history of exactly MaxLen accesses, with the initial array, once
 Emit == (Len(hist) = MaxLen) => PrintT(<<"BEH", ToJson([dim |-> dim, arr0 |-> arr0, hist |-> hist])>>)
